@@ -154,7 +154,7 @@ def run_ws(W: dict) -> dict:
             async def push_from_message(self, message):
                 hist["events"].append({"t": peer.ms(), "source": self.channel, "n": message.get("n", message.get("data", {}).get("n", -1))})
 
-        fail = {"keys": 0, "token": 0, "delay_token": 0}
+        fail = {"keys": 0, "token": 0, "delay_token": 0, "keepalive": 0}
 
         if W["flavour"] == "generic":
             class Cli(core_ws.WebSocketClient):
@@ -198,6 +198,9 @@ def run_ws(W: dict) -> dict:
 
                 async def keep_alive_listen_key(self, key):
                     hist["keepalive"].append({"t": peer.ms(), "key": key})
+                    if fail["keepalive"] > 0:
+                        fail["keepalive"] -= 1
+                        raise RuntimeError("scripted: keep-alive request failed (503)")
                     return {}
 
             class FakeApi:
@@ -287,6 +290,8 @@ def run_ws(W: dict) -> dict:
                     fail["token"] += 1
                 elif op == "delay_token":
                     fail["delay_token"] = st.get("ms", 500)
+                elif op == "fail_next_keepalive":
+                    fail["keepalive"] += 1
                 elif ws is None:
                     continue
                 elif op == "close":
